@@ -346,6 +346,27 @@ class Case:
         job = self.jobs[j]
         self.send((bp.ACK, (job._job, i, CLOCK[0], FakeProcess.all[pref].pid, None)))
 
+    def ev_ack_scan(self, j, i, pref, dt, lingers=False):
+        """the acknowledgement of job j is handled, and WHILE ApplyResult._ack runs its on_timeout_set
+        hook (under the job's mutex) the clock moves on by dt and the timeout handler scans: the
+        scanner thread interleaved with the result handler inside _ack.  Only soft limits may be due
+        (a hard timeout would need the job's mutex)."""
+        job = self.jobs[j]
+        case = self
+        ran = []
+
+        def hook(job_, soft, hard):
+            if not ran:
+                ran.append(1)
+                CLOCK[0] += dt
+                case.ev_scan(lingers)
+        job._on_timeout_set = hook
+        try:
+            self.send((bp.ACK, (job._job, i, CLOCK[0], FakeProcess.all[pref].pid, None)))
+        finally:
+            job._on_timeout_set = None
+        return ['hook-ran', len(ran)]
+
     def ev_ready(self, j, i, ok, tag):
         job = self.jobs[j]
         if ok:
